@@ -2,14 +2,14 @@
 
 package processor
 
-// C05 (merge with limit): a `sort N` / `head N` evaluated over several already-sorted
-// streams returns exactly the first N rows of the merged order, however the rows are
-// distributed over the streams and over the batches each stream delivers.
+// C06 (two-pass commands over merged streams): a command that reads its input twice
+// (Rewind between the passes) sees the same rows in both passes, whatever the batching of
+// the input streams and whatever merge limit is in force.
 //
 //verif:pkg pkg/segment/query/processor
-//verif:entry VerifC05MergeLimit conf=6
-//verif:stub-always github.com/siglens/siglens/pkg/utils.isNil verifC05IsNil
-//verif:bound two input streams of 1..3 rows each (quick: at most 4 rows in total), ascending free int64 keys within each stream, each stream delivered in one or two batches and ending either with a separate end-of-stream answer or together with its last batch; limit absent or 1..total+1; DataProcessor.getStreamInput is called until it reports the end; optionally DataProcessor.Rewind and a second complete read
+//verif:entry VerifC06RewindSeesTheSameStream conf=6
+//verif:stub-always github.com/siglens/siglens/pkg/utils.isNil verifC06mIsNil
+//verif:bound two input streams of 1..2 rows each, ascending free int64 keys within each stream, each stream delivered in one or two batches and ending either with a separate end-of-stream answer or together with its last batch; limit absent or 1..total+1; DataProcessor.getStreamInput is called until it reports the end; then DataProcessor.Rewind and a second complete read
 //verif:outside more than two streams, descending/multi-key comparators (the comparator is the caller's), the processors fed by the merge, parallel fetch scheduling (goroutines run inline under the engine)
 
 import (
@@ -22,31 +22,31 @@ import (
 )
 
 // utils.isNil inspects its argument with reflect; the only Option built here holds a uint64
-func verifC05IsNil(value interface{}) bool { return value == nil }
+func verifC06mIsNil(value interface{}) bool { return value == nil }
 
-type verifC05Stream struct {
+type verifC06mStream struct {
 	vals        []int64
 	cuts        []int // batch k holds rows cuts[k]..cuts[k+1]
 	pos         int
 	eofWithLast bool
 }
 
-func (s *verifC05Stream) Fetch() (*iqr.IQR, error) {
+func (s *verifC06mStream) Fetch() (*iqr.IQR, error) {
 	if s.pos >= len(s.cuts)-1 {
 		return nil, io.EOF
 	}
-	b := verifC05IQR(map[string][]int64{"a": s.vals}, s.cuts[s.pos], s.cuts[s.pos+1]-s.cuts[s.pos])
+	b := verifC06IQR(map[string][]int64{"a": s.vals}, s.cuts[s.pos], s.cuts[s.pos+1]-s.cuts[s.pos])
 	s.pos++
 	if s.pos == len(s.cuts)-1 && s.eofWithLast {
 		return b, io.EOF
 	}
 	return b, nil
 }
-func (s *verifC05Stream) Rewind()        { s.pos = 0 }
-func (s *verifC05Stream) Cleanup()       {}
-func (s *verifC05Stream) String() string { return "verif stream" }
+func (s *verifC06mStream) Rewind()        { s.pos = 0 }
+func (s *verifC06mStream) Cleanup()       {}
+func (s *verifC06mStream) String() string { return "verif stream" }
 
-func verifC05Less(r1, r2 *iqr.Record) bool {
+func verifC06mLess(r1, r2 *iqr.Record) bool {
 	if r1 == nil {
 		return false
 	} else if r2 == nil {
@@ -60,13 +60,13 @@ func verifC05Less(r1, r2 *iqr.Record) bool {
 	return v1.CVal.(int64) < v2.CVal.(int64)
 }
 
-func verifC05MakeStream(name string, vals []int64) *CachedStream {
+func verifC06mMakeStream(name string, vals []int64) *CachedStream {
 	n := len(vals)
 	first := n
 	if n > 1 {
 		first = 1 + zz.Choice(name+"FirstBatch", n) // 1..n rows in the first batch
 	}
-	s := &verifC05Stream{vals: vals, eofWithLast: zz.Choice(name+"EofWithLastBatch", 2) == 1}
+	s := &verifC06mStream{vals: vals, eofWithLast: zz.Choice(name+"EofWithLastBatch", 2) == 1}
 	s.cuts = []int{0, first}
 	if first < n {
 		s.cuts = append(s.cuts, n)
@@ -74,12 +74,9 @@ func verifC05MakeStream(name string, vals []int64) *CachedStream {
 	return NewCachedStream(s)
 }
 
-func VerifC05MergeLimit() {
-	na := 1 + zz.Choice("rowsA", 3)
-	nb := 1 + zz.Choice("rowsB", 3)
-	if zz.Tier() == 0 {
-		zz.Assume(na+nb <= 4)
-	}
+func VerifC06RewindSeesTheSameStream() {
+	na := 1 + zz.Choice("rowsA", 2)
+	nb := 1 + zz.Choice("rowsB", 2)
 	a, b := make([]int64, na), make([]int64, nb)
 	for i := range a {
 		a[i] = zz.I64(zz.Name("a", i))
@@ -91,8 +88,8 @@ func VerifC05MergeLimit() {
 	}
 	total := na + nb
 	limit := zz.Choice("limit", total+2) // 0 = no limit
-	dp := &DataProcessor{streams: []*CachedStream{verifC05MakeStream("a", a), verifC05MakeStream("b", b)}}
-	dp.mergeSettings.less = verifC05Less
+	dp := &DataProcessor{streams: []*CachedStream{verifC06mMakeStream("a", a), verifC06mMakeStream("b", b)}}
+	dp.mergeSettings.less = verifC06mLess
 	if limit > 0 {
 		dp.mergeSettings.limit = utils.Some(uint64(limit))
 	}
@@ -100,13 +97,13 @@ func VerifC05MergeLimit() {
 	drain := func() []int64 {
 		var got []int64
 		for round := 0; ; round++ {
-			zz.Assert(round <= 2*total+4, "mergelimit/terminates")
+			zz.Assert(round <= 2*total+4, "rewind/terminates")
 			if round > 2*total+4 {
 				return got
 			}
 			out, err := dp.getStreamInput()
-			zz.Assert(err == nil || err == io.EOF, "mergelimit/no-error")
-			got = append(got, verifC05Read(out, "a")...)
+			zz.Assert(err == nil || err == io.EOF, "rewind/no-error")
+			got = append(got, verifC06Read(out, "a")...)
 			if err != nil {
 				return got
 			}
@@ -114,7 +111,7 @@ func VerifC05MergeLimit() {
 	}
 	got := drain()
 	// a two-pass command rewinds its input and reads it again: the second pass sees the same rows
-	secondPass := zz.Choice("secondPass", 2) == 1
+	secondPass := true
 	var got2 []int64
 	if secondPass {
 		dp.Rewind()
@@ -136,16 +133,16 @@ func VerifC05MergeLimit() {
 		want = want[:limit]
 	}
 	zz.Observe("ngot", len(got))
-	zz.Assert(len(got) == len(want), "mergelimit/exactly-the-first-N-rows")
+	zz.Assert(len(got) == len(want), "rewind/exactly-the-first-N-rows")
 	for k := 0; k < len(got) && k < len(want); k++ {
 		zz.Observe(zz.Name("got", k), got[k])
-		zz.Assert(got[k] == want[k], "mergelimit/rows-in-merged-order")
+		zz.Assert(got[k] == want[k], "rewind/rows-in-merged-order")
 	}
 	if secondPass {
 		zz.Observe("ngot2", len(got2))
-		zz.Assert(len(got2) == len(want), "mergelimit/second-pass-after-rewind-sees-the-same-rows")
+		zz.Assert(len(got2) == len(want), "rewind/second-pass-after-rewind-sees-the-same-rows")
 		for k := 0; k < len(got2) && k < len(want); k++ {
-			zz.Assert(got2[k] == want[k], "mergelimit/second-pass-after-rewind-sees-the-same-rows")
+			zz.Assert(got2[k] == want[k], "rewind/second-pass-after-rewind-sees-the-same-rows")
 		}
 	}
 }
